@@ -41,9 +41,9 @@ pub fn literals(th: bool) -> Vec<String> {
         // a trailing '.' followed by an exponent is not one literal token for rustc's lexer
         if f == "." && !e.is_empty() { continue; }
         if !th {
-            // quick: thin the product deterministically
+            // quick: thin the four-way product deterministically (2 of 3 of the long x fraction x exponent combinations)
             let h = fnv(format!("{}{}{}", i, f, e).as_bytes());
-            if !(i.len() <= 3 || f.is_empty() || e.is_empty() || h % 3 == 0) { continue; }
+            if !(i.len() <= 3 || f.is_empty() || e.is_empty() || h % 3 != 0) { continue; }
         }
         out.insert(format!("{}{}{}{}", sign, i, f, e));
     }}}}
@@ -224,7 +224,7 @@ pub fn run(tier: Tier) -> i32 {
     let rc = finish(Finish {
         run: &run,
         level: "model_checking",
-        rule: "All literal programs Dec!(<lit>) of the bounded grammar sign {'', -, +} x integer part (0, 00, 1, 7, 10, 123, 007, 19/20-digit values, floor(M/10^k)+{0,1}, 2^127-1, 2^127, 2^128-1, 2^128, wrap-band anchors, 10^38, 10^39-1, 10^39, 40 digits) x fraction {absent, '.', .0, .5, .50, .05, 17/18/19/20 digits and zeros, 17/18 zeros + 1} x exponent {absent, e0, e1, E1, e+1, e-1, e+-17..19, e21, e38, e39, e40, e-40, e005, e00, e-0, E+38, e+-100} restricted to single unsuffixed literal tokens of rustc's lexer, plus 1_000, 0x1F, 0b11, 0o7 (lexer-valid, parser-invalid); quick thins the four-way product deterministically, thorough takes it whole with all exponents -40..=40. Each program is compiled by the real proc macro and rustc; accept programs are executed. Oracle: Decimal::from_str of the same text. Every program is distinct and non-trivial.".into(),
+        rule: "All literal programs Dec!(<lit>) of the bounded grammar sign {'', -, +} x integer part (0, 00, 1, 7, 10, 123, 007, 19/20-digit values, floor(M/10^k)+{0,1}, 2^127-1, 2^127, 2^128-1, 2^128, wrap-band anchors, 10^38, 10^39-1, 10^39, 40 digits) x fraction {absent, '.', .0, .5, .50, .05, 17/18/19/20 digits and zeros, 17/18 zeros + 1} x exponent {absent, e0, e1, E1, e+1, e-1, e+-17..19, e21, e38, e39, e40, e-40, e005, e00, e-0, E+38, e+-100} restricted to single unsuffixed literal tokens of rustc's lexer, plus redundant-zero forms (20..60 leading zeros, zero-padded exponents, 0.000..0ddd e+k), exponents next to the truncating-cast wrap points, 1_000, 0x1F, 0b11, 0o7 (lexer-valid, parser-invalid); quick thins the four-way product deterministically, thorough takes it whole with all exponents -40..=40. Each program is compiled by the real proc macro and rustc; accept programs are executed. Oracle: Decimal::from_str of the same text. Every program is distinct and non-trivial.".into(),
         exhaustive: true,
         assumptions: vec!["rustc/cargo of this sandbox (1.95); one error per failing invocation is located by its primary span line".into()],
         class_name: &class_name,
